@@ -8,7 +8,7 @@ PROP = dict(
     id="C18",
     corr=["Model/C18Corr.vo"],
     design_ref="DESIGN.md §6 C18, §8 (claimed partial)",
-    technique="PARTIAL: Coq theorem lock_order_sound for arbitrary lock/access skeletons (small-step interleaving semantics, non-reentrant mutexes; ranked held->acquired relation through calls and synchronous callbacks => no reachable deadlock configuration) + the boolean check decided by vm_compute on the skeleton regenerated from the source on every run (go/types walk of swap, policy, txwatcher, electrum, lwk, peersync; binding tables for interfaces and callback registrations) + reflective check of the maker state tables (cancel / failed coop close / invalid message -> CSV wait -> CSV spend -> ClaimedCsv); run-time part: deadlock scenarios against the real SwapService with the real BlockchainRpcTxWatcher / lwk electrum watcher over a simulated chain, watchdog 5 s",
+    technique="PARTIAL: Coq theorem lock_order_sound for arbitrary lock/access skeletons (small-step interleaving semantics, non-reentrant mutexes; ranked held->acquired relation through calls and synchronous callbacks => no reachable deadlock configuration) + the boolean check decided by vm_compute on the skeleton regenerated from the source on every run (go/types walk of swap, policy, txwatcher, electrum, lwk, peersync; binding tables for interfaces and callback registrations) + reflective check of the maker state tables (cancel / failed coop close / invalid message -> CSV wait -> CSV spend -> ClaimedCsv); run-time part: deadlock scenarios against the real SwapService with the real BlockchainRpcTxWatcher / lwk electrum watcher over a simulated chain, watchdog 5 s; plus dispatcher scenarios: the real RPC watcher keeps delivering blocks while / after a slow confirmation callback",
     level_text="Machine-checked proof that no schedule of any number of threads over today's WHOLE lock skeleton (no exclusion since the synchronous CSV callback under the swap mutex, finding C18/1, was repaired) reaches a configuration in which threads wait for each other's (or their own) mutexes; the skeleton is re-extracted from the working tree on every run and the lock-order check re-evaluated. 162 scenarios (3 watcher configurations x 2 maker roles x CSV not yet / just / long matured x cancel / failing coop close / invalid message x 3 orders of message and block notification) run the real code on every check and must end with the CSV refund.",
     level_note="Partial by design: the theorem is about the skeleton (control flow flattened to lexical order under extractor-checked balance conditions; locks and fields are classes, not instances; RLock treated as exclusive under an extractor-checked side condition). The skeleton cannot exhibit blocking inside RPC clients, channel sends/receives, select, sync.Cond.Wait, WaitGroup.Wait, time.Sleep (all listed in the evidence under blocking_primitives_outside_model) nor the Go scheduler; lnd's watcher and the cln/lnd clients are outside the analysed packages. The extractor is trusted.",
     assumptions=[
